@@ -833,6 +833,10 @@ def adapt_typehints(
     elif typehint_origin == Union:
         vals = []
         sorted_subtypes = sort_subtypes_for_union(subtypehints, val, append)
+        if serialize:
+            # first try the subtypes for which the value is already valid, instead of the first that does not fail
+            valid_subtypes = [s for s in sorted_subtypes if is_valid_value_of_subtype(val, s, adapt_kwargs)]
+            sorted_subtypes = valid_subtypes + [s for s in sorted_subtypes if s not in valid_subtypes]
         for subtype in sorted_subtypes:
             try:
                 vals.append(adapt_typehints(val, subtype, **adapt_kwargs))
@@ -1490,6 +1494,14 @@ def sort_subtypes_for_union(subtypes, val, append):
         if append:
             subtypes = sorted(subtypes, key=lambda x: get_typehint_origin(x) not in sequence_origin_types)
     return subtypes
+
+
+def is_valid_value_of_subtype(val, subtype, adapt_kwargs) -> bool:
+    try:
+        adapted = adapt_typehints(val, subtype, **{**adapt_kwargs, "serialize": False})
+    except Exception:
+        return False
+    return type(adapted) is type(val) and adapted == val
 
 
 def is_literal_member(val, subtypehints) -> bool:
